@@ -65,9 +65,18 @@ def ls_queries(rng, p):
     return q
 
 
-def ls_cases(ctx, nprob):
-    """one group per (problem, subset); inside a group one case per (alg, entry) with identical queries"""
-    groups, cases = [], []
+def ls_quota(nprob, thorough=False):
+    """guaranteed problems on top of the `nprob` of the historical mix: free-network Jacobians (defect 3 and 4, kinds
+    cycled so that every kind occurs) and two-part problems (kernel on a proper part of the unknowns)"""
+    if thorough:
+        return {"free": max(12, nprob // 3), "parts": max(8, nprob // 5)}
+    return {"free": 12, "parts": 8}
+
+
+def ls_problems(ctx, nprob, quota=None):
+    """[(problem, [(S, resolves)…])]"""
+    quota = ls_quota(nprob, ctx.thorough) if quota is None else quota
+    out = []
     for _ in range(nprob):
         p = g.gen_problem(ctx.rng)
         subs = g.gen_subsets(ctx.rng, p, 3)
@@ -78,6 +87,24 @@ def ls_cases(ctx, nprob):
             if zero:
                 S = sorted(ctx.rng.sample(zero, ctx.rng.randint(1, len(zero))))
                 subs.append((S, g.resolves(p, S)))
+        out.append((p, subs))
+    for k in range(quota.get("free", 0)):
+        # unit covariance for two of three: the solver entry of chol/gso/svd takes dense (A, b) only
+        p = g.gen_problem(ctx.rng, family="free-" + g.FREE_KINDS[k % len(g.FREE_KINDS)], correlated=(k % 3 == 2))
+        subs = [(list(range(1, p["n"] + 1)), True)] + g.gen_proper_subsets(ctx.rng, p, 3, 1)
+        out.append((p, subs))
+    for k in range(quota.get("parts", 0)):
+        p = g.gen_problem(ctx.rng, family="parts", correlated=(k % 3 == 2))
+        subs = [(list(range(1, p["n"] + 1)), True)] + g.gen_proper_subsets(ctx.rng, p, 2, 1)
+        out.append((p, subs))
+    return out
+
+
+def ls_cases(ctx, nprob, quota=None):
+    """one group per (problem, subset); inside a group one case per (alg, entry) with identical queries"""
+    groups, cases = [], []
+    for pi, (p, subs) in enumerate(ls_problems(ctx, nprob, quota)):
+        n = p["n"]
         seen = set()
         for S, ok in subs:
             if tuple(S) in seen:
@@ -88,7 +115,7 @@ def ls_cases(ctx, nprob):
                 # history-free reading: every query goes to a brand-new object (what a query returns AFTER a
                 # refused solve on the same object is property C04's business)
                 qs = ["fresh " + q for q in qs]
-            reg = "all" if (len(S) == p["n"] and ctx.rng.random() < 0.5) else S
+            reg = "all" if (len(S) == n and ctx.rng.random() < 0.5) else S
             idx = []
             for alg in ALGS:
                 for entry in ("solver", "adj"):
@@ -96,10 +123,14 @@ def ls_cases(ctx, nprob):
                         continue
                     lines = g.problem_lines(p, reg) + [f"new {alg} {entry}"] + qs
                     if entry == "solver" and ok:
-                        lines += [f"lindep {i}" for i in range(1, p["n"] + 1)]
+                        lines += [f"lindep {i}" for i in range(1, n + 1)]
+                    elif entry == "solver" and p["defect"]:
+                        # the way LocalNetwork::null_space asks: unknowns() (refused), then defect(), lindep(1..n) of
+                        # the SAME object
+                        lines += ["x", "defect"] + [f"lindep {i}" for i in range(1, n + 1)]
                     idx.append((len(cases), alg, entry))
                     cases.append(lines)
-            groups.append({"p": p, "S": S, "ok": ok, "qs": qs, "idx": idx})
+            groups.append({"p": p, "pi": pi, "S": S, "ok": ok, "qs": qs, "idx": idx, "proper": len(S) < n})
     return groups, cases
 
 
@@ -125,7 +156,9 @@ def ls_group_oracle(grp, outs):
         ans[key] = out[2:2 + nq]
     if not ans:
         return bad
-    ref = g.reference(p, list(range(1, p["n"] + 1)))          # v, rtr are the same for every S
+    if "_ref_all" not in p:                                    # v, rtr are the same for every S: once per problem
+        p["_ref_all"] = g.reference(p, list(range(1, p["n"] + 1)))
+    ref = p["_ref_all"]
     vs = 1.0 + max([abs(float(v)) for v in ref["v"]] + [0.0])
     if not ok:
         # S does not resolve the defect: nobody may report unknowns or their cofactors
@@ -201,9 +234,10 @@ def ls_group_oracle(grp, outs):
     return bad
 
 
-def lindep_flags(out, nq, n):
+def lindep_flags(out, off, n):
+    """flags of the n `lindep i` answers starting at out[off]; None if one of them is not a flag"""
     fl = []
-    for l in out[2 + nq:2 + nq + n]:
+    for l in out[off:off + n]:
         t = l.split()
         if len(t) == 2 and t[0] == "flag" and t[1] in ("0", "1"):
             fl.append(int(t[1]))
@@ -212,15 +246,98 @@ def lindep_flags(out, nq, n):
     return fl if len(fl) == n else None
 
 
-def check_ls(ctx, corr, nprob, with_model=True):
+def lindep_oracle(p, fl):
+    """the unknowns a solver names as linearly dependent (fl: n flags) on a problem with exact kernel p['kernel']:
+    as many as the defect, each one moved by some kernel vector, and the columns that are left independent"""
+    n, d = p["n"], p["defect"]
+    F_ = [i for i in range(n) if fl[i]]
+    bad = []
+    if len(F_) != d:
+        bad.append(f"{len(F_)} unknowns flagged as dependent {[i + 1 for i in F_]} but the defect n - rank A is {d}")
+    out = [i + 1 for i in F_ if all(gk[i] == 0 for gk in p["kernel"])]
+    if out:
+        bad.append(f"unknowns {out} are flagged as dependent but no vector of ker A moves them (their columns are "
+                   f"independent of all the others)")
+    A = g.dense(p)
+    keep = [j for j in range(n) if j not in F_]
+    r = g.rank([[row[j] for j in keep] for row in A]) if keep else 0
+    if r != len(keep):
+        bad.append(f"deleting the flagged unknowns {[i + 1 for i in F_]} leaves {len(keep)} columns of rank {r}"
+                   f" (rank A = {n - d})")
+    return bad
+
+
+def gs_trace(ctx, groups, cases):
+    """model-only probe: pivot order of AdjCholDec's null-space Gram-Schmidt (op `gstrace` of drv_ls) for the chol
+    cases of groups with defect >= 2 and a resolving subset.  {case index: (swaps, offid)}"""
+    pick = [ci for grp in groups if grp["ok"] and grp["p"]["defect"] >= 2 for ci, alg, entry in grp["idx"] if alg == "chol"]
+    probe = []
+    for ci in pick:
+        c = cases[ci]
+        k = c.index("end")
+        probe.append(c[:k + 2] + ["gstrace"])
+    out, _ = run_cases(ctx.driver("drv_ls"), probe)
+    res = {}
+    for ci, o in zip(pick, out):
+        t = o[-1].split() if o else []
+        if len(t) >= 7 and t[0] == "gstrace" and t[2] == "ok":
+            res[ci] = (int(t[4]), int(t[6]))
+    return res
+
+
+def env_orderings(exe, groups, cases):
+    """the ordering the REAL envelope solver computed (probe op `envinfo`), per problem: {pi: invp (1-based list)}"""
+    first = {}
+    for grp in groups:
+        if grp["p"]["defect"] and grp["pi"] not in first:
+            ci = next((ci for ci, alg, entry in grp["idx"] if alg == "env" and entry == "solver"), None)
+            if ci is not None:
+                first[grp["pi"]] = ci
+    probe = []
+    for pi, ci in first.items():
+        c = cases[ci]
+        probe.append(c[:c.index("end") + 2] + ["envinfo"])
+    out, _ = run_cases(exe, probe)
+    res = {}
+    for pi, o in zip(first, out):
+        t = o[-1].split() if o else []
+        if t and t[0] == "envinfo" and "invp" in t:
+            n = int(t[1])
+            k = t.index("invp")
+            res[pi] = [int(x) for x in t[k + 1:k + 1 + n]]
+    return res
+
+
+F7SVD_REGISTERED = any(f.get("id") == "F7-svd" for f in load_findings("C02"))
+
+# quick-tier minimum of the case mix (thorough has more of everything); not met -> inconclusive
+LS_MIN = {"ls_groups_defect_3": 20, "ls_groups_defect_4": 15, "ls_groups_defect_ge3_proper_resolving": 25,
+          "ls_groups_defect_ge3_proper_not_resolving": 6, "ls_chol_gs_cases_swapped": 20, "ls_chol_gs_cases_offid": 10,
+          "ls_env_problems_rcm_not_involutive": 8, "ls_env_problems_perm_invp_distinguishable": 4,
+          "ls_lindep_oracle_refused": 20, "ls_lindep_oracle_accepted": 60}
+
+
+def check_ls(ctx, corr, nprob, with_model=True, quota=None):
     exe = c01.harness(ctx)
-    groups, cases = ls_cases(ctx, nprob)
-    impl, crashes = run_cases(exe, cases)
+    groups, cases = ls_cases(ctx, nprob, quota)
     model = None
+    with concurrent.futures.ThreadPoolExecutor(max_workers=2) as ex:
+        fm = ex.submit(g.run_cases_par, ctx.driver("drv_ls"), cases, 3) if with_model else None
+        impl, crashes = g.run_cases_par(exe, cases, 4)
+        if fm:
+            model, _ = fm.result()
     if with_model:
-        model, _ = run_cases(ctx.driver("drv_ls"), cases)
+        for ci, (sw, off) in gs_trace(ctx, groups, cases).items():
+            corr.count("ls_chol_gs_cases_traced")
+            if sw:
+                corr.count("ls_chol_gs_cases_swapped")
+            if off:
+                corr.count("ls_chol_gs_cases_offid")
+    invps = env_orderings(exe, groups, cases)
+    seen_p = set()
     for gi, grp in enumerate(groups):
         p = grp["p"]
+        n, nq = p["n"], len(grp["qs"])
         nontrivial = p["defect"] > 0 or not p["unit_cov"]
         outs = {}
         for ci, alg, entry in grp["idx"]:
@@ -228,14 +345,20 @@ def check_ls(ctx, corr, nprob, with_model=True):
             corr.case(key=(" ".join(c)) if nontrivial else None,
                       sample={"ops": c[:c.index("end") + 6] + ["..."], "impl": impl[ci][:6]} if ci in (0, 9) else None)
             corr.count(f"ls_alg_{alg}_{entry}")
+            corr.count(f"ls_cases_defect_{p['defect']}")
             if ci in crashes:
                 corr.fail("solver crashed / sanitizer report", {"stream": "ls", "ops": c}, f"{alg}/{entry}", crashes[ci][1])
                 continue
             outs[(alg, entry)] = impl[ci]
             if model is not None:
                 nm = False
-                for a, b in zip(impl[ci], model[ci]):
+                for k, (a, b) in enumerate(zip(impl[ci], model[ci])):
                     if b == "not-modelled":
+                        nm = True
+                        continue
+                    # the null_space-style tail after a refused unknowns(): the history-free model keeps refusing where
+                    # the object answers defect()/lindep() (C04's business): compared only where the model answers
+                    if not grp["ok"] and k >= 2 + nq and a != b and b.startswith("throw"):
                         nm = True
                         continue
                     if not lines_equal(a, b, rtol=1e-9, atol=1e-9):
@@ -247,16 +370,58 @@ def check_ls(ctx, corr, nprob, with_model=True):
                 corr.count("ls_not_modelled" if nm else "ls_modelled")
         corr.count("ls_groups")
         corr.count("ls_singular" if p["defect"] else "ls_regular")
+        corr.count(f"ls_groups_defect_{p['defect']}")
         corr.count("ls_correlated" if not p["unit_cov"] else "ls_unit_cov")
         corr.count("ls_subset_resolves" if grp["ok"] else "ls_subset_not_resolving")
         corr.count("ls_family_" + p["family"])
-        # which unknowns are flagged may differ between algorithms (finding F7 / C02_flags_differ): measured
+        if p["defect"] >= 3 and grp["proper"]:
+            corr.count("ls_groups_defect_ge3_proper_" + ("resolving" if grp["ok"] else "not_resolving"))
+        # ---- lindep on the implementation, all four solvers, refused and accepted ---------------------------
+        # which unknowns are flagged may differ between algorithms (finding F7 / C02_flags_differ): measured;
+        # every flag set by itself must be the complement of a column basis inside the support of the kernel
         fl = {}
         for (alg, entry), out in outs.items():
-            if entry == "solver":
-                f = lindep_flags(out, len(grp["qs"]), p["n"])
-                if f is not None:
-                    fl[alg] = tuple(f)
+            if entry != "solver" or not p["defect"]:
+                continue
+            off = 2 + nq + (0 if grp["ok"] else 2)
+            f = lindep_flags(out, off, n)
+            ops = next(cases[ci] for ci, a, e in grp["idx"] if (a, e) == (alg, entry))
+            rep = {"stream": "ls", "ops": ops, "subset": grp["S"], "resolves": grp["ok"]}
+            if f is None:
+                corr.fail(f"{alg}/solver: lindep(1..{n}) on a singular problem (defect {p['defect']}, subset "
+                          f"{'resolves' if grp['ok'] else 'does not resolve'}) not answered: {' | '.join(out[off:off + 3])}",
+                          rep, f"{alg}/solver/lindep", " | ".join(out[:4]))
+                continue
+            fl[alg] = tuple(f)
+            corr.count("ls_lindep_oracle_" + ("accepted" if grp["ok"] else "refused"))
+            bad = lindep_oracle(p, f)
+            if alg == "svd" and bad and sum(f) == p["defect"]:
+                # F7-svd (known finding registered for C20; Lean: C20_svd_lindep): SVD::lindep(i) tests the i-th
+                # SINGULAR VALUE, not unknown i.  Counted here; reported as a failure (classified F7-svd) once a line
+                # with that id exists for C02 in known_findings.jsonl.  The number of flags (what does hold,
+                # C20_svd_lindep_partial) stays a failure for svd too.
+                corr.count("ls_svd_lindep_F7svd_cases")
+                if F7SVD_REGISTERED:
+                    corr.fail(f"svd/solver lindep: " + "; ".join(bad), rep, "svd/solver/lindep", " | ".join(out[off:off + n]))
+                bad = []
+            if not grp["ok"] and out[off - 1] != f"int {p['defect']}":
+                bad.append(f"defect() after the refused unknowns() -> '{out[off - 1]}', n - rank A = {p['defect']}")
+            if bad:
+                corr.fail(f"{alg}/solver lindep: " + "; ".join(bad), rep, f"{alg}/solver/lindep", " | ".join(out[off:off + n]))
+            if alg == "env" and grp["pi"] in invps and grp["pi"] not in seen_p:
+                seen_p.add(grp["pi"])
+                invp = invps[grp["pi"]]
+                if sorted(invp) == list(range(1, n + 1)):
+                    perm = [0] * n
+                    for i, q in enumerate(invp):
+                        perm[q - 1] = i + 1
+                    if perm != invp:
+                        corr.count("ls_env_problems_rcm_not_involutive")
+                        Z = {invp[i] for i in range(n) if f[i]}
+                        f2 = [1 if perm[i] in Z else 0 for i in range(n)]
+                        if f2 != list(f) and lindep_oracle(p, f2):
+                            corr.count("ls_env_problems_perm_invp_distinguishable")
+                    corr.count("ls_env_problems_probed")
         if p["defect"] and len(set(fl.values())) > 1:
             corr.count("ls_groups_where_flag_sets_differ")
         for what, site in ls_group_oracle(grp, outs):
@@ -270,6 +435,11 @@ def check_ls(ctx, corr, nprob, with_model=True):
         corr.inconclusive.append("fewer than 25% singular problems (solver level)")
     if tot and corr.stats.get("ls_subset_not_resolving", 0) < 0.05 * tot:
         corr.inconclusive.append("fewer than 5% non-resolving subsets (solver level)")
+    for k, need in LS_MIN.items():
+        if not with_model and k.startswith("ls_chol_gs"):
+            continue
+        if tot and corr.stats.get(k, 0) < need:
+            corr.inconclusive.append(f"solver level case mix: {k} = {corr.stats.get(k, 0)} < {need}")
 
 
 # =============================================================================================
@@ -1002,6 +1172,9 @@ def search(ctx, broken, corr):
 def classify(ctx, failure):
     inp = failure.replay if isinstance(failure.replay, dict) else {}
     w = failure.what
+    if inp.get("stream") == "ls" and failure.site == "svd/solver/lindep" and w.startswith("svd/solver lindep:") \
+            and " unknowns flagged as dependent " not in w:
+        return "F7-svd"       # the count of flags is right, the named unknowns are not (see check_ls)
     # F22: AdjEnvelope/Envelope::cholDec decides the rank with an ABSOLUTE pivot tolerance sqrt(eps) and no pivoting; when the
     # ordering meets a small legitimate pivot (1e-6..1e-4: a coordinate fixed so far only by a nearly collinear
     # observation) the rounding residue of a later dependent pivot is amplified above the tolerance, the defect of a
